@@ -591,41 +591,63 @@ func checkC09(c *Ctx) {
 		return
 	}
 	pos := u.pos(f.Pos())
+	// parameters by role (type), not by name: the block's error, the saved stack depth, the body's module
 	var blockErr, blockDepth, blockModule *ssa.Parameter
 	for _, p := range f.Params {
-		switch p.Name() {
-		case "blockErr":
+		switch {
+		case isErrorType(p.Type()):
 			blockErr = p
-		case "blockDepth":
-			blockDepth = p
-		case "blockModule":
+		case namedTypeIs(p.Type(), "pkg/runtime", "Module"):
 			blockModule = p
-		}
-	}
-	if blockErr == nil {
-		for _, p := range f.Params {
-			if isErrorType(p.Type()) {
-				blockErr = p
+		default:
+			if b, ok := p.Type().Underlying().(*types.Basic); ok && b.Info()&types.IsInteger != 0 {
+				blockDepth = p
 			}
 		}
 	}
 	// ---- C09.channel
-	kinds := map[string]bool{}
-	for _, in := range instrsOf(f) {
-		if ta, ok := in.(*ssa.TypeAssert); ok && ta.X == ssa.Value(blockErr) && ta.CommaOk {
-			if namedTypeIs(ta.AssertedType, "pkg/error", "RuntimeError") {
-				kinds["RuntimeError"] = true
+	// the error is classified in the handler itself or in helpers it hands the error to
+	type errHolder struct {
+		fn *ssa.Function
+		v  ssa.Value
+	}
+	holders := []errHolder{{f, blockErr}}
+	for i := 0; i < len(holders) && i < 6; i++ {
+		h := holders[i]
+		for _, in := range instrsOf(h.fn) {
+			call, ok := in.(*ssa.Call)
+			if !ok {
+				continue
 			}
-			if namedTypeIs(ta.AssertedType, "pkg/value", "Exception") {
-				kinds["Exception"] = true
+			callee := call.Call.StaticCallee()
+			if callee == nil || callee.Pkg != f.Pkg || callee.Blocks == nil || callee == h.fn {
+				continue
+			}
+			for ai, a := range call.Call.Args {
+				if a == h.v && ai < len(callee.Params) {
+					holders = append(holders, errHolder{callee, callee.Params[ai]})
+				}
 			}
 		}
 	}
+	kinds := map[string]bool{}
 	sigOK := false
 	sigConsts := constsWithPrefix(u.Pkgs["pkg/error"], "SigTypeException")
-	for _, cs := range u.callsNamed(f, "pkg/exec.extractSignalValue") {
-		if k, ok := cs.Common().Args[1].(*ssa.Const); ok && cs.Common().Args[0] == ssa.Value(blockErr) && k.Int64() == sigConsts["SigTypeException"] {
-			sigOK = true
+	for _, h := range holders {
+		for _, in := range instrsOf(h.fn) {
+			if ta, ok := in.(*ssa.TypeAssert); ok && ta.X == h.v && ta.CommaOk {
+				if namedTypeIs(ta.AssertedType, "pkg/error", "RuntimeError") {
+					kinds["RuntimeError"] = true
+				}
+				if namedTypeIs(ta.AssertedType, "pkg/value", "Exception") {
+					kinds["Exception"] = true
+				}
+			}
+		}
+		for _, cs := range u.callsNamed(h.fn, "pkg/exec.extractSignalValue") {
+			if k, ok := cs.Common().Args[1].(*ssa.Const); ok && cs.Common().Args[0] == h.v && k.Int64() == sigConsts["SigTypeException"] {
+				sigOK = true
+			}
 		}
 	}
 	R.check(sigOK, "C09.channel", "handleExceptionSignal:signal", pos, "exception signals raised by 抛出 are recognised", "exception signals are not extracted from the block's error")
